@@ -22,7 +22,8 @@ enum Op { kDtor = 0, kResize, kSsw };
 
 struct Spec {
   int N = 1;
-  int mode = 0; // 0 wake (1 h backstop), 1 poll (200 us)
+  int mode = 0; // 0 wake (1 h backstop), 1 poll (200 us), 2 pollL (poll mode with a 1 h period)
+  bool forcedSswParked = false;
   int hist = 0; // 0 fresh, 1 bulk (ring path, claims nobody), 2 claimed (single force-queued tasks)
   int singles = 0;
   int phase = 0;
@@ -38,7 +39,16 @@ struct Spec {
   std::string opName() const {
     if (op == kDtor) return "dtor";
     if (op == kResize) return m == 0 ? "resize-0" : N == 0 ? "resize-from0" : m > N ? "resize-up" : "resize-down";
-    return newMode == mode ? "ssw-same" : "ssw-toggle";
+    return (newMode == 0) == (mode == 0) ? "ssw-same" : "ssw-toggle"; // same signalling flag, other duration
+  }
+  bool wakeFlag() const {
+    return mode == 0;
+  }
+  bool longGen() const { // the generation under test cannot be rescued by its timed wait
+    return mode != 1;
+  }
+  const char* modeName() const {
+    return mode == 0 ? "wake" : mode == 1 ? "poll" : "pollL";
   }
   const char* nClass() const {
     return N == 0 ? "n0" : N == 1 ? "n1" : N <= 8 ? "n2-8" : "n9+";
@@ -47,10 +57,10 @@ struct Spec {
     return hist == 0 ? "fresh" : hist == 1 ? "bulk" : "claimed";
   }
   std::string key() const {
-    return opName() + "/" + (mode ? "poll" : "wake") + "/" + histName() + "/" + kPhaseNames[phase] + "/" + nClass();
+    return opName() + "/" + modeName() + "/" + histName() + "/" + kPhaseNames[phase] + "/" + nClass();
   }
   J json() const {
-    return J().kv("N", N).kv("mode", mode ? "poll" : "wake").kv("hist", histName()).kv("singles", singles).kv("phase", kPhaseNames[phase])
+    return J().kv("N", N).kv("mode", modeName()).kv("hist", histName()).kv("singles", singles).kv("phase", kPhaseNames[phase])
         .kv("op", opName()).kv("m", m).kv("newMode", newMode ? "poll" : "wake").kv("newDurUs", static_cast<unsigned long>(newDurUs))
         .kv("nbusy", nbusy).kv("dwellUs", dwellUs).kv("jitterUs", jitterUs).kv("stopperHooks", stopperHooks).kv("spurious", spurious)
         .kv("gateOpenMode", gateOpenMode).kv("openDelayUs", openDelayUs);
@@ -155,7 +165,7 @@ struct Monitor {
             }
             vrt::violation(
                 "operation does not return: the caller sleeps in join while " + std::to_string(alive) +
-                    " worker(s) of the stopped generation stay parked in a timed futex wait that nobody will wake (one-hour backstop)",
+                    " worker(s) of the stopped generation stay parked in a timed futex wait (30-60 min timeout) that nobody will wake",
                 J().kv("aliveWorkers", alive).arr("parkedWorkerRanks", parkedTids).kv("inTimedWait", fs.inTimedWaitNow)
                     .kv("callerState", std::string(1, cs)).kv("flat_s", now - tStart).kv("hooks", vrt::hookStats()),
                 subkeyFinal.load(std::memory_order_relaxed) ? "final-dtor" : "");
@@ -261,7 +271,10 @@ Spec genSpec(vrt::Rng& r, long idx) {
   const bool th = vrt::thorough();
   static const int quickNs[] = {0, 1, 2, 2, 3, 4, 4, 8, 8, 9, 9, 16, 17};
   s.N = th ? static_cast<int>(r.range(0, 17)) : quickNs[r.below(13)];
-  s.mode = r.chance(0.25) ? 1 : 0;
+  {
+    double u = static_cast<double>(r.below(1000)) / 1000.0;
+    s.mode = u < 0.5 ? 0 : u < 0.7 ? 1 : 2;
+  }
   s.phase = static_cast<int>(idx % kNumPhases); // every phase equally often
   {
     double u = static_cast<double>(r.below(1000)) / 1000.0;
@@ -275,8 +288,21 @@ Spec genSpec(vrt::Rng& r, long idx) {
   do {
     s.m = th ? static_cast<int>(r.range(0, 17)) : quickNs[r.below(13)];
   } while (s.m == s.N);
-  s.newMode = r.chance(0.5) ? s.mode : 1 - s.mode;
-  s.newDurUs = s.newMode == 0 ? (r.chance(0.5) ? kHourUs : kHourUs / 2) : (r.chance(0.5) ? 200u : 100u);
+  {
+    const int flag = s.mode == 0 ? 0 : 1;
+    s.newMode = r.chance(0.5) ? flag : 1 - flag;
+    if (s.newMode == flag) {
+      const uint32_t d[] = {kHourUs - 1000000u, 200u, 100u, kHourUs / 2};
+      s.newDurUs = d[r.below(4)];
+    } else if (s.newMode == 0) {
+      s.newDurUs = r.chance(0.5) ? kHourUs : kHourUs / 2;
+    } else {
+      const uint32_t d[] = {200u, 100u, kHourUs};
+      s.newDurUs = d[r.below(3)];
+    }
+  }
+  const bool slice = r.chance(0.5);
+  const bool sliceShort = r.chance(0.5);
   s.nbusy = static_cast<int>(r.range(1, 4)) * std::max(1, s.N);
   s.dwellUs = static_cast<int>(r.range(20, 400));
   s.jitterUs = r.chance(0.5) ? 0 : static_cast<int>(r.range(1, 300));
@@ -293,7 +319,15 @@ Spec genSpec(vrt::Rng& r, long idx) {
     s.phase = kParked;
     s.hist = 0;
   }
-  if (s.mode == 1 && s.phase == kGate9) s.phase = kGate10; // site 9 exists in wake mode only
+  if (s.mode != 0 && s.phase == kGate9) s.phase = kGate10; // site 9 exists in wake mode only
+  if (s.mode == 2) s.hist = 0; // nothing wakes a poll-mode worker for a task: only a fresh generation
+  // same flag, other duration, on parked workers whose period is long: 1 h -> 200 us and 1 h -> 1 h - 1 s
+  if (s.op == kSsw && s.opName() == "ssw-same" && s.longGen() && s.N > 0 && slice) {
+    s.phase = kParked;
+    s.hist = s.mode == 0 && r.chance(0.3) ? 1 : 0;
+    s.newDurUs = sliceShort ? 200u : kHourUs - 1000000u;
+    s.forcedSswParked = true;
+  }
   if (s.phase >= kGate8 && s.hist == 2) s.hist = 1; // gates are judged on a generation without claims
   if (s.phase == kParking) s.jitterUs = static_cast<int>(r.range(0, 3000));
   return s;
@@ -325,17 +359,40 @@ void runC09() {
     long atParked = 0, atSleeping = 0, atNotWorking = 0;
     bool gateReached = false;
 
-    dispenso::ThreadPool* pool = new dispenso::ThreadPool(static_cast<size_t>(s.N));
-    std::vector<int> gen0 = liveWorkers(c);
-    // ---- set-up restart (default 100 ms backstop generation: not judged for hangs, but it must be gone)
-    monitoredOp(c, gen0, false, 0, 0, 0, V::kPoolResizeAfterStop, static_cast<size_t>(s.N), "setup", false, [&] {
-      if (s.mode == 0) pool->setSignalingWake(true, std::chrono::microseconds(kHourUs));
-      else pool->setSignalingWake(false, std::chrono::microseconds(200));
-    });
+    const bool wake = s.mode == 0;
+    const bool pollL = s.mode == 2;
+    bool parkedOk = true;
+    int gateSite = 0;
+    dispenso::ThreadPool* pool = nullptr;
+    if (!pollL) {
+      pool = new dispenso::ThreadPool(static_cast<size_t>(s.N));
+      std::vector<int> gen0 = liveWorkers(c);
+      // ---- set-up restart (default 100 ms backstop generation: not judged for hangs, but it must be gone)
+      monitoredOp(c, gen0, false, 0, 0, 0, V::kPoolResizeAfterStop, static_cast<size_t>(s.N), "setup", false, [&] {
+        if (s.mode == 0) pool->setSignalingWake(true, std::chrono::microseconds(kHourUs));
+        else pool->setSignalingWake(false, std::chrono::microseconds(200));
+      });
+    } else {
+      // Poll mode with a one-hour period. Nothing ever wakes such a worker for a task, so the phases
+      // are set up on the way to its first park: the pool starts empty, gets the mode, the park-site
+      // delays / the gate are armed, and resize(N) creates the generation under test.
+      pool = new dispenso::ThreadPool(0);
+      pool->setSignalingWake(false, std::chrono::microseconds(kHourUs));
+      if (s.phase == kParking) {
+        vrt::hookMaxSleepUs(2000);
+        vrt::hookProb(V::kPoolWorkerBeforeEnterSleep, 0.9);
+        vrt::hookProb(V::kPoolWorkerBeforeWait, 0.9);
+        vrt::futexPreWaitDelay(0.5, 500);
+        if (s.spurious) vrt::futexSpurious(0.2);
+      } else if (s.phase == kGate8 || s.phase == kGate10) {
+        gateSite = s.phase == kGate8 ? V::kPoolWorkerBeforeEnterSleep : V::kPoolWorkerBeforeWait;
+        vrt::gateArm(gateSite);
+      }
+      monitoredOp(c, std::vector<int>(), false, 0, 0, 0, V::kPoolResizeAfterStop, static_cast<size_t>(s.N), "setup", false,
+                  [&] { pool->resize(s.N); });
+    }
     --c.evals; // the set-up is not counted as a lifecycle under test
     std::vector<int> workers = liveWorkers(c);
-    const bool wake = s.mode == 0;
-    bool parkedOk = true;
 
     // ---- history of this generation
     if (s.hist == 1) {
@@ -363,7 +420,34 @@ void runC09() {
     }
 
     // ---- drive the workers to the target phase
-    int gateSite = 0;
+    if (pollL) {
+      switch (s.phase) {
+        case kParked:
+          parkedOk = waitAllParked(*pool, workers, 30.0, false) && parkedOk;
+          break;
+        case kBusy:
+          // best effort: the work is queued while the new workers are still in their first spin
+          g_dwellUs.store(s.dwellUs, std::memory_order_relaxed);
+          pool->scheduleBulk(static_cast<size_t>(s.nbusy), [](size_t i) {
+            int ii = static_cast<int>(i);
+            return [ii, p = payload(ii)]() { unitBody(ii); };
+          });
+          break;
+        case kGate8:
+        case kGate10:
+          for (int w = 0; w < 200 && !gateReached; ++w) {
+            gateReached = vrt::gateWaitArrived(gateSite, 50);
+            vrt::progress();
+          }
+          if (!gateReached) {
+            vrt::inconclusive("gate not reached");
+            vrt::gateOpen(gateSite);
+            gateSite = 0;
+          }
+          break;
+        default: break; // spinning / parking: the call comes while the workers head for their first park
+      }
+    } else
     switch (s.phase) {
       case kParked:
         if (wake) parkedOk = waitAllParked(*pool, workers) && parkedOk;
@@ -455,7 +539,7 @@ void runC09() {
     const long submitted = s.phase == kBusy ? s.nbusy : 0;
     size_t expectNew = s.op == kDtor ? 0u : s.op == kResize ? static_cast<size_t>(s.m) : static_cast<size_t>(s.N);
     int afterStop = s.op == kDtor ? V::kPoolDtorAfterStop : V::kPoolResizeAfterStop;
-    monitoredOp(c, workers, wake, gateSite, s.gateOpenMode, s.openDelayUs, afterStop, expectNew, "", false, [&] {
+    monitoredOp(c, workers, s.longGen(), gateSite, s.gateOpenMode, s.openDelayUs, afterStop, expectNew, "", false, [&] {
       if (s.op == kDtor) {
         delete pool;
         pool = nullptr;
@@ -473,11 +557,34 @@ void runC09() {
 
     // ---- final destruction of the surviving pool: a fresh generation, judged like any other
     if (pool) {
-      int n2 = s.op == kResize ? s.m : s.N;
-      int mode2 = s.op == kSsw ? s.newMode : s.mode;
+      const bool wake2 = s.op == kSsw ? s.newMode == 0 : wake;
+      const uint32_t dur2 = s.op == kSsw ? s.newDurUs : (s.mode == 1 ? 200u : kHourUs);
       std::vector<int> gen2 = liveWorkers(c);
-      bool judge2 = mode2 == 0;
-      if (judge2) waitAllParked(*pool, gen2, 10.0);
+      // ---- after "same flag, other duration": besides the identity check inside monitoredOp, a task
+      // force-queued now must be started by the NEW configuration (signalled wake, or the new short poll
+      // period), not wait for a parked worker of the old one
+      if (s.op == kSsw && s.opName() == "ssw-same" && (wake2 || dur2 <= 200u)) {
+        static std::atomic<int> fdone{0};
+        fdone.store(0, std::memory_order_relaxed);
+        pool->schedule(
+            []() {
+              vrt::progress();
+              fdone.store(1, std::memory_order_relaxed);
+            },
+            dispenso::ForceQueuingTag());
+        int w = waitFlagOrStranded(fdone, *pool, gen2, 30.0, wake2);
+        if (w == 0) {
+          vrt::violation(
+              "after setSignalingWake(same mode, new duration) a force-queued task is not started: every worker is parked in a timed futex wait and none leaves it",
+              J().kv("spec", s.json()).kv("workers", static_cast<long>(gen2.size())).kv("inTimedWait", vrt::futexStats().inTimedWaitNow),
+              "followup-task");
+        } else if (w < 0) {
+          vrt::inconclusive("follow-up task: guard expired without a stranded state");
+        }
+        cls.push_back(std::string("followup:") + (wake2 ? "wake" : "poll"));
+      }
+      bool judge2 = dur2 >= kHourUs / 2;
+      if (judge2) waitAllParked(*pool, gen2, 10.0, wake2);
       monitoredOp(c, gen2, judge2, 0, 0, 0, V::kPoolDtorAfterStop, 0u, "final-dtor", true, [&] {
         delete pool;
         pool = nullptr;
@@ -492,7 +599,13 @@ void runC09() {
     if (!parkedOk) vrt::inconclusive("pool never reached the all-parked state");
 
     cls.push_back("op:" + s.opName());
-    cls.push_back(std::string("mode:") + (wake ? "wake" : "poll"));
+    cls.push_back(std::string("mode:") + s.modeName());
+    if (pollL) {
+      cls.push_back(std::string("pollL:") + kPhaseNames[s.phase]);
+      cls.push_back(std::string("pollL:op:") + (s.op == kDtor ? "dtor" : s.op == kResize ? "resize" : "ssw"));
+      if (gateReached) cls.push_back(std::string("pollL:gate-reached:") + kPhaseNames[s.phase]);
+    }
+    if (s.forcedSswParked) cls.push_back(std::string("ssw-parked:") + (wake ? "wake" : "poll") + (s.newDurUs <= 200u ? ":long-short" : ":long-long"));
     cls.push_back(std::string("phase:") + kPhaseNames[s.phase]);
     cls.push_back(std::string("hist:") + s.histName());
     cls.push_back(s.nClass());
